@@ -140,6 +140,48 @@ def gen_ends_at_header(rng, fmt, variant, k):
     return dict(fmt=fmt, numrecs=0, dims=dims, gatts=gatts, vars=vs, unlim=0, has_rec=bool(vs), family='ends-at-header')
 
 
+def gen_many_dims(rng, fmt, variant):
+    """spec-valid schema with a variable of 17..40 dimensions (lengths 1, a few 2) somewhere among
+    record and fixed-size variables: the dispatcher of ncmpi_open keeps a per-variable shape cache
+    (dimids beyond 16 go to a heap buffer) that is only observable through the inquiries and reads"""
+    dn, an, vn = set(), set(), set()
+    ndim = rng.range(24, 44)
+    dims = [dict(name=gen_name(rng, dn, long_ok=False), size=0)]
+    twos = set(rng.shuffle(list(range(1, ndim)))[:3])
+    for i in range(1, ndim):
+        dims.append(dict(name=gen_name(rng, dn, long_ok=False), size=2 if i in twos else 1))
+
+    def var(ids):
+        t = rng.range(1, 6) if fmt < 5 else rng.range(1, 11)
+        return dict(name=gen_name(rng, vn, long_ok=False), dimids=ids, atts=[gen_att(rng, fmt, set()) for _ in range(rng.choice([0, 0, 1]))],
+                    type=t, vsize=0, begin=0)
+
+    def small(rec):
+        ids = [0] if rec else []
+        ids += [rng.range(1, ndim - 1) for _ in range(rng.choice([0, 1, 2]))]
+        return var(ids)
+    nbig = rng.range(17, min(40, ndim - 1))
+    big_ids = rng.shuffle(list(range(1, ndim)))[:nbig]
+    big_rec = variant % 2 == 1
+    if big_rec:
+        big_ids = [0] + big_ids[:-1]
+    vs = []
+    if variant % 3 == 0:
+        vs.append(var([0]))                      # the record coordinate variable first
+    for _ in range(rng.choice([0, 1, 2])):
+        vs.append(small(rng.chance(1, 2)))
+    vs.append(var(big_ids))
+    for _ in range(rng.range(2, 4)):
+        vs.append(small(rng.chance(1, 2)))
+    if variant % 4 == 3:                         # a second big variable of the other kind
+        ids2 = rng.shuffle(list(range(1, ndim)))[:rng.range(17, min(30, ndim - 1))]
+        vs.append(var(ids2 if big_rec else [0] + ids2[:-1]))
+        vs.append(small(False))
+    has_rec = any(v['dimids'] and v['dimids'][0] == 0 for v in vs)
+    return dict(fmt=fmt, numrecs=rng.choice([0, 1, 2, 3]), dims=dims, gatts=[gen_att(rng, fmt, an) for _ in range(rng.choice([0, 1]))],
+                vars=vs, unlim=0, has_rec=has_rec, family='more-than-16-dims')
+
+
 def is_rec(s, v):
     return bool(v['dimids']) and v['dimids'][0] < len(s['dims']) and s['dims'][v['dimids'][0]]['size'] == 0
 
@@ -461,6 +503,10 @@ def run_check(tier, seed):
             for variant in ('rec-only', 'no-vars'):
                 for k in range(nsweep):
                     schemas.append(gen_ends_at_header(rng, fmt, variant, k % 27))
+        # variables with more than 16 dimensions among other variables (dispatcher shape cache)
+        for fmt in (1, 2, 5):
+            for variant in range(6 if tier == 'quick' else 24):
+                schemas.append(gen_many_dims(rng, fmt, variant))
         # corpus of past failing schemas (token lines) runs first
         corpus = os.path.join(VERIF, 'corpus', 'C04', 'schemas.txt')
         ncorpus = 0
@@ -494,7 +540,7 @@ def run_check(tier, seed):
                 s['file_end'] = max(ef, s['begin_rec'] + s['numrecs'] * s['recsize'] if recs else ef)
                 s['has_rec'] = bool(recs)
             else:
-                s['tags'] = layout(rng, s, s['xsz'], exotic=(rng.below(6) != 0 and not s.get('family')))
+                s['tags'] = layout(rng, s, s['xsz'], exotic=(rng.below(6) != 0 and s.get('family') != 'ends-at-header'))
                 if s.get('family'):
                     s['tags'].add(s['family'])
         r2 = lean_batch(drv, ['ENC ' + ' '.join(schema_tokens(s)) for s in schemas])
@@ -514,7 +560,7 @@ def run_check(tier, seed):
             path = os.path.join(wd, 'v%d.nc' % k)
             open(path, 'wb').write(data)
             chunks = CHUNKS if (tier == 'thorough' or k < 12) else [36, rng.choice([40, 52, 64, 100]), rng.choice([4096, 262144])]
-            if s.get('family'):
+            if s.get('family') == 'ends-at-header':
                 chunks = list(range(36, 101, 4)) + [4096]        # every small chunk size
             if s['xsz'] > 100000:
                 chunks = [4096, 262144]       # (the model's copy loop appends per refill: keep the big case to large chunks)
@@ -849,15 +895,19 @@ def api_mismatch(got, s, data):
         return 'schema'
     if s['unlim'] >= 0 and g['numrecs'] != s['numrecs']:
         return 'numrecs'
-    hs, he, rs, ul = [int(x) for x in t[k1 + 1:k2]]
+    hs, he, rs, ul, nrecv, nfixv = [int(x) for x in t[k1 + 1:k2]]
+    if nrecv != sum(1 for v in s['vars'] if is_rec(s, v)) or nfixv != sum(1 for v in s['vars'] if not is_rec(s, v)):
+        return 'num_rec_vars/num_fix_vars(%d/%d)' % (nrecv, nfixv)
     if hs != s['xsz']:
         return 'header-size'
     if ul != s['unlim']:
         return 'unlimdim'
     if s['has_rec'] and rs != s['recsize']:
         return 'recsize'
-    dv = t[k2 + 1:]
-    if len(dv) != len(s['vars']):
+    k3 = t.index('|', k2 + 1)
+    dv = t[k2 + 1:k3]
+    sub = t[k3 + 1:]
+    if len(dv) != len(s['vars']) or len(sub) != len(s['vars']):
         return 'data-count'
     for v, h in zip(s['vars'], dv):
         if is_rec(s, v):
@@ -867,6 +917,14 @@ def api_mismatch(got, s, data):
             exp = data[v['begin']: v['begin'] + nelems(s, v) * TSIZE[v['type']]]
         if unhx(h) != exp:
             return 'data'
+        # the upper-half block read with get_vara
+        shape = [(s['numrecs'] if s['dims'][i]['size'] == 0 else s['dims'][i]['size']) for i in v['dimids']]
+        ts = TSIZE[v['type']]
+        idx = [0]
+        for sz in shape:
+            idx = [i * sz + j for i in idx for j in range(sz // 2, sz)]
+        if unhx(sub[s['vars'].index(v)]) != b''.join(exp[i * ts:(i + 1) * ts] for i in idx):
+            return 'vara-data'
     return None
 
 
